@@ -138,6 +138,8 @@ def parse_template(path, defines=None):
             cur_splice = {"at": toks[0], "_lines": []}
             if "expect" in kv:
                 cur_splice["expect"] = kv["expect"]
+            if "ret" in kv:
+                cur_splice["ret"] = kv["ret"]
         elif line.startswith("@closure "):
             flush_splice()
             toks = shlex.split(line[len("@closure "):])
@@ -184,11 +186,35 @@ def _activate_canary(text):
     return "\n".join(out)
 
 
-def generate(unit, template, outdir, canary=False, defines=None, subst=None):
+def frame_defines(frames, outdir, unit):
+    """syntactic write sets of trusted functions -> template defines W_<fn>_<field>
+    (the frame part of a trusted contract is derived from the code, not remembered)"""
+    ensure_extractor()
+    os.makedirs(outdir, exist_ok=True)
+    defs, info = set(), {}
+    for fr in frames or []:
+        req = {"file": os.path.join(REPO, fr["file"]), "items": [{"path": fr["item"], "mode": "sig", "splices": []}]}
+        reqpath = os.path.join(outdir, f"{unit}.frame.{fr['name']}.req.json")
+        json.dump(req, open(reqpath, "w"))
+        r = subprocess.run([EXTRACT_BIN, reqpath], stdout=subprocess.PIPE, stderr=subprocess.PIPE, text=True)
+        if r.returncode != 0:
+            raise Undecided(f"frame analysis of {fr['item']} failed: {r.stderr.strip()}")
+        it = json.loads(r.stdout)["items"][0]
+        info[fr["name"]] = {"writes": it["self_writes"], "reads": it["self_reads"], "calls": it["self_calls"]}
+        for w in it["self_writes"]:
+            defs.add(f"W_{fr['name']}_{w}")
+        if it["self_calls"] or "*" in it["self_writes"]:
+            defs.add(f"W_{fr['name']}_ANY")
+    return defs, info
+
+
+def generate(unit, template, outdir, canary=False, defines=None, subst=None, frames=None):
     """Build <outdir>/<unit>[_canary].rs.  Returns metadata dict."""
     ensure_extractor()
     os.makedirs(outdir, exist_ok=True)
     defines = set(defines or [])
+    fdefs, finfo = frame_defines(frames, outdir, unit)
+    defines |= fdefs
     if canary:
         defines.add("CANARY")
     segs = parse_template(template, defines)
@@ -254,7 +280,7 @@ def generate(unit, template, outdir, canary=False, defines=None, subst=None):
     path = os.path.join(outdir, f"{unit}{'_canary' if canary else ''}.rs")
     with open(path, "w") as fh:
         fh.write("\n".join(out_lines) + "\n")
-    return {"unit": unit, "path": path, "blocks": blocks, "lines": out_lines, "canary": canary}
+    return {"unit": unit, "path": path, "blocks": blocks, "lines": out_lines, "canary": canary, "frames": finfo}
 
 
 def map_line(meta, line):
